@@ -43,7 +43,8 @@ Qed.
 Print Assumptions C10_only_active_protocol.
 
 (* After stop() nothing more is delivered - including updates that were already
-   scheduled on the loop when stop() was called - until the user starts again. *)
+   scheduled on the loop when stop() was called - until the user starts again.  This holds
+   whether stop() returned or raised (a protocol updater whose own stop() fails: cfg.sraise). *)
 Theorem C10_silent_after_stop :
   forall c pre post,
     no_start post = true ->
@@ -54,23 +55,48 @@ Proof.
   intros c pre post N. split.
   - change (pre ++ Stop :: post) with (pre ++ [Stop] ++ post). rewrite app_assoc. apply outs_app.
   - apply silent_gen; [|assumption].
-    rewrite final_app. simpl.
-    pose proof (inv_final c pre init inv_init) as I. unfold inv in I.
-    destruct (blocked (final c init pre)) eqn:B; simpl; [now apply I | reflexivity].
+    rewrite final_app, final_cons. cbn [final].
+    apply fwd_after_stop_or_close; [apply inv_final, inv_init | now left].
 Qed.
 Print Assumptions C10_silent_after_stop.
 
-(* After close() nothing is ever delivered again, whatever follows (start is blocked). *)
-Theorem C10_silent_after_close :
-  forall c pre post, pushes (outs c (final c init (pre ++ [Close])) post) = [].
+(* The same for close(), also for a close() that is aborted because stopping a protocol
+   updater raised ... *)
+Theorem C10_silent_after_any_close :
+  forall c pre post,
+    no_start post = true -> pushes (outs c (final c init (pre ++ [Close])) post) = [].
 Proof.
-  intros c pre post. rewrite final_app. simpl.
-  pose proof (inv_final c pre init inv_init) as I. unfold inv in I.
-  destruct (blocked (final c init pre)) eqn:B; simpl.
-  - apply silent_blocked; [assumption | now apply I].
-  - apply silent_blocked; reflexivity.
+  intros c pre post N. apply silent_gen; [|assumption].
+  rewrite final_app, final_cons. cbn [final].
+  apply fwd_after_stop_or_close; [apply inv_final, inv_init | now right].
+Qed.
+Print Assumptions C10_silent_after_any_close.
+
+(* ... and once close() has completed nothing is ever delivered again, whatever follows
+   (start is blocked). *)
+Theorem C10_silent_after_close :
+  forall c pre post,
+    blocked (final c init (pre ++ [Close])) = true ->
+    pushes (outs c (final c init (pre ++ [Close])) post) = [].
+Proof.
+  intros c pre post B. apply silent_blocked; [assumption|].
+  now apply (inv_final c (pre ++ [Close]) init inv_init).
 Qed.
 Print Assumptions C10_silent_after_close.
+
+(* close() does complete when no registered updater's stop() raises *)
+Theorem C10_close_completes :
+  forall c pre,
+    forallb (fun p => negb (memb p (sraise c))) (regs c) = true ->
+    blocked (final c init (pre ++ [Close])) = true.
+Proof.
+  intros c pre H. rewrite final_app, final_cons. simpl.
+  destruct (blocked (final c init pre)) eqn:B; [exact B|].
+  pose proof (stop_all_ok (sraise c) (regs c) (lis (final c init pre)) H) as K.
+  destruct (stop_all (sraise c) (regs c) (lis (final c init pre))) as [l ok]. simpl in K. subst ok.
+  reflexivity.
+Qed.
+Print Assumptions C10_close_completes.
 
 (* Notified whenever it changes (steady regime): after start, as long as nobody stops,
    closes or takes over, once the loop has run the listener has received exactly the
@@ -130,9 +156,10 @@ Proof.
   intros c p. split.
   - destruct (C10_silent_after_stop c [Start; Err p] [RunAll] eq_refl) as [E S].
     change ([Start; Err p; Stop; RunAll]) with ([Start; Err p] ++ Stop :: [RunAll]).
-    rewrite E, pushes_app, S, app_nil_r. reflexivity.
+    rewrite E, pushes_app, S, app_nil_r. now rewrite outs_norun.
   - change ([Start; Err p; Close; RunAll]) with (([Start; Err p] ++ [Close]) ++ [RunAll]).
-    rewrite outs_app, pushes_app, C10_silent_after_close, app_nil_r. reflexivity.
+    rewrite outs_app, pushes_app, (C10_silent_after_any_close c [Start; Err p] [RunAll] eq_refl), app_nil_r.
+    now rewrite outs_norun.
 Qed.
 Print Assumptions C10_error_queued_before_stop_or_close.
 
@@ -188,7 +215,7 @@ Print Assumptions C10_pairs_are_changes.
 
 (* ---- non-vacuity ------------------------------------------------------------------------------ *)
 
-Definition ex_cfg : cfg := {| regs := [1; 0]; kregs := [0; 3] |}.
+Definition ex_cfg : cfg := {| regs := [1; 0]; kregs := [0; 3]; sraise := [] |}.
 
 Example C10_ex_run :
   outs ex_cfg init [Start; Post 0 0; Post 1 0; Post 0 0; Post 0 1; RunAll;
@@ -201,6 +228,13 @@ Example C10_ex_steady :
   plays (outs ex_cfg init (Start :: [Post 0 1; Post 1 1; Post 0 1; Run1; Post 0 2] ++ [RunAll])) =
     [(0, 1); (0, 2)].
 Proof. rewrite (C10_notify_iff_changed ex_cfg 0); reflexivity. Qed.
+
+(* the updater of protocol 1 (iterated first) fails in stop(): stop() raises, protocol 0's updater keeps
+   its listener, yet neither the scheduled nor a later status is delivered *)
+Example C10_ex_stop_raises :
+  run {| regs := [1; 0]; kregs := []; sraise := [1] |} init [Start; Post 0 1; Stop; RunAll; Post 0 2; RunAll] =
+    [([], ROk); ([], ROk); ([], RRaise); ([], ROk); ([], ROk); ([], ROk)].
+Proof. vm_compute. reflexivity. Qed.
 
 Example C10_ex_stop_race : pushes (outs ex_cfg init [Start; Post 0 1; Stop; RunAll]) = [].
 Proof. vm_compute. reflexivity. Qed.
